@@ -53,6 +53,9 @@ CONF = {
     "s_child": (["C13", "C05", "C08"], "q", dict(tree=CHAIN2, NN=2, MaxNow=0, progs=[[SWC(2), SWC(2)], [NOTIFY(1)]])),
     "s_nearer": (["C13", "C05"], "q", dict(tree=T((1, 0, 2)), NN=1, MaxNow=2, progs=[[SWC(1, 1), POLL(1)], [NOTIFY(1)]])),
     "s_3w": (["C13", "C05"], "t", dict(tree=T((1, 0, 1)), NN=1, MaxNow=1, progs=[[SWC(1)], [SWC(1)], [SWC(1, 1)], [NOTIFY(1)]])),
+    # a timed wait on a note whose notifier has to wait for a concurrently disconnecting child (WAIT_FOR_NO_CHILDREN drops the lock)
+    "s_par_disc": (["C13", "C05", "C08"], "q", dict(tree=CHAIN2, NN=2, MaxNow=1, progs=[[NOTIFY(1)], [NOTIFY(2)], [SWC(1, 1)]])),
+    "w_par_disc": (["C13", "C11", "C08"], "q", dict(tree=CHAIN2, NN=2, MaxNow=1, progs=[[NOTIFY(1)], [NOTIFY(2)], [WAIT(1, 1)]])),
     # C19: allocation failure at every constructor call of tree-building scenarios
     "a_seq": (["C19"], "q", dict(tree=T((1, 0, NONE)), NN=3, progs=[[NEW(2, 1, NONE, 1), NEW(2, 1), NEW(3, 2, 5, 1), NEW(3, 2, 5), NOTIFY(1), POLL(3)]])),
     "a_root": (["C19"], "q", dict(tree=T(), NN=2, progs=[[NEW(1, 0, NONE, 1), NEW(1, 0, 3), NEW(2, 1, 7, 1), NEW(2, 1, 7), POLL(2)]], MaxNow=0)),
